@@ -73,7 +73,8 @@ func c19Short(s string, n int) string {
 	return s
 }
 
-// c19PanicSite: innermost frame below the runtime that belongs to nuts-node (or, failing that, the first non-runtime frame)
+// c19PanicSite: "<innermost nuts-node function>" when the panic happened in nuts-node code itself, or
+// "<innermost nuts-node function>><library function>" when it happened in a library called from it
 func c19PanicSite() string {
 	pcs := make([]uintptr, 64)
 	n := runtime.Callers(3, pcs)
@@ -87,14 +88,18 @@ func c19PanicSite() string {
 			if i := strings.LastIndex(short, "/"); i >= 0 {
 				short = short[i+1:]
 			}
-			if first == "" {
+			isNuts := strings.Contains(fn, "nuts-foundation/nuts-node") && !strings.Contains(fn, "TestVerif") && !strings.Contains(fn, "c19")
+			if first == "" && !isNuts {
 				first = short
 			}
-			if strings.Contains(fn, "nuts-foundation/nuts-node") && !strings.Contains(fn, "TestVerif") && !strings.Contains(fn, "c19") {
+			if isNuts {
 				parts := strings.Split(short, ".")
 				name := parts[len(parts)-1]
 				if strings.HasPrefix(name, "func") && len(parts) > 1 {
 					name = parts[len(parts)-2]
+				}
+				if first != "" {
+					return name + ">" + first
 				}
 				return name
 			}
